@@ -51,8 +51,8 @@ var (
 	checks    = map[string]func(c *Ctx){}
 )
 
-func RegisterScenario(s *Scenario) { scenarios[s.Name] = s }
-func RegisterEnum(e *Enum)          { enums[e.Name] = e }
+func RegisterScenario(s *Scenario)            { scenarios[s.Name] = s }
+func RegisterEnum(e *Enum)                    { enums[e.Name] = e }
 func RegisterCheck(id string, f func(c *Ctx)) { checks[id] = f }
 
 // curPOR is the sleep-set specification of the execution about to run (nil: plain DFS). A process
@@ -113,24 +113,24 @@ type Known struct {
 
 // Ctx is handed to a property's check function.
 type Ctx struct {
-	ID        string
-	Tier      string
-	Seed      int
-	Level     string
-	Workers   int
-	Deadline  time.Time
-	Parts     []*Part
-	Assume    []string
-	Rule      string
-	known     []Known
-	knownHit  map[string]int
-	newViol   []explore.Violation
-	broken    string
-	replayDir string
-	self      string
-	mu        sync.Mutex
+	ID             string
+	Tier           string
+	Seed           int
+	Level          string
+	Workers        int
+	Deadline       time.Time
+	Parts          []*Part
+	Assume         []string
+	Rule           string
+	known          []Known
+	knownHit       map[string]int
+	newViol        []explore.Violation
+	broken         string
+	replayDir      string
+	self           string
+	mu             sync.Mutex
 	nontrivialKeys map[string]bool
-	samples   []interface{}
+	samples        []interface{}
 }
 
 func (c *Ctx) maxKeep() int {
@@ -422,11 +422,11 @@ func WorkerLoop() {
 }
 
 type enumReq struct {
-	Enum  string `json:"enum"`
-	Tier  string `json:"tier"`
-	Shard int    `json:"shard"`
-	Of    int    `json:"of"`
-	DeadlineUnix int64 `json:"deadline"`
+	Enum         string `json:"enum"`
+	Tier         string `json:"tier"`
+	Shard        int    `json:"shard"`
+	Of           int    `json:"of"`
+	DeadlineUnix int64  `json:"deadline"`
 }
 
 type enumRes struct {
@@ -634,13 +634,13 @@ func Main(id, tier string, seed int, verifDir, self string, budget time.Duration
 		samples = append(samples, "none")
 	}
 	cov := map[string]interface{}{
-		"evaluations":         evals,
-		"distinct_nontrivial": len(c.nontrivialKeys),
+		"evaluations":           evals,
+		"distinct_nontrivial":   len(c.nontrivialKeys),
 		"nontrivial_executions": nontriv,
-		"rule":                c.Rule,
-		"samples":             samples,
-		"exhaustive":          exhaustive,
-		"parts":               c.Parts,
+		"rule":                  c.Rule,
+		"samples":               samples,
+		"exhaustive":            exhaustive,
+		"parts":                 c.Parts,
 	}
 	if states > 0 {
 		cov["states"] = states
